@@ -1,6 +1,7 @@
 import Gomjml.Core.Layout
 import Gomjml.Core.Lexer
 import Driver.CacheP
+import Driver.SfP
 /-! Line-protocol driver (E3): first word selects a sub-protocol, one output line per input line.
     Imports only core-only Model/Spec modules so that it links as a `lean_exe`. -/
 open Gomjml
@@ -11,6 +12,7 @@ def handle (line : String) : String :=
   match line.splitOn " " with
   | ["ping"] => "pong"
   | "cache" :: args => Driver.CacheP.handle args
+  | "sf" :: args => Driver.SfP.handle args
   | _ => "bad-request"
 
 partial def loop (hin hout : IO.FS.Stream) : IO Unit := do
